@@ -77,7 +77,18 @@ impl Ctx {
             shard,
             of,
             res: ShardResult::default(),
-            progress,
+            progress: {
+                if let Some(p) = &progress {
+                    // one byte next to the progress file says whether the code under test is
+                    // running right now ('L') or the harness ('H'): see `guard`
+                    let mut f = p.clone().into_os_string();
+                    f.push(".lib");
+                    if let Ok(file) = std::fs::OpenOptions::new().create(true).write(true).truncate(true).open(&f) {
+                        let _ = LIB_FLAG.set(file);
+                    }
+                }
+                progress
+            },
             max_samples: 4,
             viol_keys: BTreeMap::new(),
         }
@@ -202,11 +213,28 @@ impl Panicked {
     }
 }
 
-/// Run code under test; a panic is returned as a value.
+static LIB_FLAG: std::sync::OnceLock<std::fs::File> = std::sync::OnceLock::new();
+
+fn lib_flag(b: u8) {
+    use std::os::unix::fs::FileExt;
+    if let Some(f) = LIB_FLAG.get() {
+        let _ = f.write_at(&[b], 0);
+    }
+}
+
+/// Run code under test; a panic is returned as a value.  While the outermost guarded call runs,
+/// the shard's `.lib` flag file reads 'L': a shard killed by a signal (stack overflow, allocation
+/// failure) at that moment died *inside the library*, not in an oracle (driver: `<id>:abort`).
 pub fn guard<T>(f: impl FnOnce() -> T) -> Result<T, Panicked> {
+    if GUARD_DEPTH.with(|d| d.get()) == 0 {
+        lib_flag(b'L');
+    }
     GUARD_DEPTH.with(|d| d.set(d.get() + 1));
     let r = std::panic::catch_unwind(std::panic::AssertUnwindSafe(f));
     GUARD_DEPTH.with(|d| d.set(d.get() - 1));
+    if GUARD_DEPTH.with(|d| d.get()) == 0 {
+        lib_flag(b'H');
+    }
     r.map_err(|_| Panicked { msg: LAST_PANIC.with(|p| p.borrow_mut().take()).unwrap_or_else(|| "<panic>".into()) })
 }
 
